@@ -800,21 +800,33 @@ impl Graph {
 
         // now everything but the links to the roots roots has been remapped;
         // remap those, if needed
+        let mut any_root_remapped = false;
         for root in roots.iter() {
             let Some(new_id) = id_map.get(root) else {
                 continue;
             };
+            any_root_remapped = true;
             self.parents_invalid = true;
             self.positions_invalid = true;
-            for (parent_id, len) in &self.nodes[new_id].parents {
+            // (the parents of the original root; the new node has none yet)
+            for (parent_id, len) in &self.nodes[root].parents {
                 if !matches!(len, OffsetLen::Offset16) {
                     for link in &mut self.objects.get_mut(parent_id).unwrap().offsets {
-                        if link.object == *root {
+                        // the same parent may also have a short offset to this
+                        // root, which has to stay with the original
+                        if link.object == *root && !matches!(link.len, OffsetLen::Offset16) {
                             link.object = *new_id;
                         }
                     }
                 }
             }
+        }
+
+        // A root that was only duplicated because one of its ancestors was
+        // may now have lost all of its parents to the duplicate; it is no
+        // longer part of the graph, and must not be counted as a parent.
+        if any_root_remapped {
+            self.remove_orphans();
         }
 
         // if any roots changed, we also rename them in the input set:
